@@ -497,6 +497,19 @@ Theorem C05_concurrent_same_digest :
 Proof. exact C05_concurrent_same_digest_l. Qed.
 Print Assumptions C05_concurrent_same_digest.
 
+(* ... and for every reader script (EOF not final): the bytes a successful concurrent push
+   puts under blobs/ are exactly what its reader delivered before its first EOF *)
+Theorem C05_concurrent_oci_upto_eof :
+  forall (H : str -> str -> str) blobs ts sched st,
+    oci_reach H blobs -> Forall (fun t => t_pc t = PStart) ts ->
+    crun H (mkC blobs ts) sched = Some st ->
+    forall i n st' t w, cstep H st i n = Some st' -> nth_error (c_thr st) i = Some t ->
+      t_pc t = PIngest w [] None ->
+      oci_get (c_blobs st') (d_dg (t_d t)) = Some (upto_eof (t_evs t)) /\
+      matches_desc H (d_dg (t_d t)) (d_sz (t_d t)) (upto_eof (t_evs t)).
+Proof. exact concurrent_oci_upto. Qed.
+Print Assumptions C05_concurrent_oci_upto_eof.
+
 (* the same for one cas.Memory (directly or through LimitedStorage): Load, ReadAll,
    LoadOrStore of any number of threads in any order *)
 Theorem C05_concurrent_memory :
